@@ -224,8 +224,11 @@ def run_c11(case):
                     p = domain.sample_grid(n=n, params=params)
                     A = _coords(p, dom)
                 stats["points"] = len(A)
-                ref = G.uniform_sample(dom, row, 200000, rng)
-                Bp = np.concatenate([ref[v] for v, _ in G.space(dom)], axis=1)
+                if G.is_boundary(dom):
+                    Bp = G.boundary_sample(dom["d"], row, 200000, rng)[G.space(dom["d"])[0][0]]
+                else:
+                    ref = G.uniform_sample(dom, row, 200000, rng)
+                    Bp = np.concatenate([ref[v] for v, _ in G.space(dom)], axis=1)
                 lo, hi = Bp.min(0), Bp.max(0)
                 g = 3
                 a = np.bincount(cell_index(A, lo, hi, g), minlength=g ** A.shape[1]) / len(A)
